@@ -577,3 +577,20 @@ def symbolic_decisions(body, start_block, max_states=4000, stop_blocks=()):
         for x in body.succ(b):
             todo.append((x, nf))
     return list(out.values())
+
+
+def split_fields(e):
+    """peel trailing field / element / variant projections: (root expr, 'a.b[*].c')"""
+    parts = []
+    while True:
+        if e[0] == 'field':
+            parts.append('.' + e[2])
+            e = e[1]
+        elif e[0] == 'variant':
+            e = e[1]
+        elif e[0] == 'elem':
+            parts.append('[%s]' % ('*' if e[2] is None else e[2]))
+            e = e[1]
+        else:
+            break
+    return e, ''.join(reversed(parts)).lstrip('.')
